@@ -144,6 +144,23 @@ ATOM_POSITIONS = {
 ATOM_PROBES = {'atom%d_%s' % (i, pos): tpl.replace('{a}', a)
                for i, a in enumerate(ATOMS) for pos, tpl in sorted(ATOM_POSITIONS.items())}
 
+# "same key, different truth": documents that agree on something a cache might be keyed by (a language label, a link label
+# as written, a URL, a heading text, a code body, a cell text) but must render differently
+SAMEKEY_FAMILIES = {
+    'unknown_language': ['```nosuchlang\n<?xml version="1.0"?>\n<a b="c"/>\n```\n', '```nosuchlang\n#!/bin/bash\necho hi\n```\n',
+                         '```nosuchlang\nx\n```\n', '~~~ nosuchlang extra\nSELECT 1;\n~~~\n'],
+    'label_spelling_ws': ['[Foo   Bar]: /one\n\n[FOO\nBAR]\n', '[foo bar]: /two "T"\n\n[FOO\nBAR]\n', '[FOO\nBAR]\n',
+                          '> [foo\tbar]: /three\n\n[FOO\nBAR] ![FOO\nBAR]\n'],
+    'label_plain': ['[k]: /one\n\n[k] [k][] [t][k]\n', '[k]: /two "T"\n\n[k] [k][] [t][k]\n', '[k] [k][] [t][k]\n', '[K]: /three\n\n[k]\n'],
+    'url_title': ['[a](/u "t1")\n', '[a](/u "t2")\n', '[a](/u)\n', '[a]: /u "t3"\n\n[a]\n'],
+    'heading_text': ['# same text\n', '## same text\n', 'same text\n===\n', 'same text\n---\n', '###### same text ##\n'],
+    'code_body': ['```py\nx = 1\n```\n', '```js\nx = 1\n```\n', '```\nx = 1\n```\n', '    x = 1\n', '`x = 1`\n'],
+    'cell_text': ['c | d\n:-|-:\nv | w\n', 'c | d\n-:|:-\nv | w\n', 'c | d\n:-:|---\nv | w\n', 'c | d\nv | w\n'],
+    'para_breaks': ['same line\nnext\n', 'same line  \nnext\n', 'same line\\\nnext\n', 'same line\n\nnext\n'],
+    'list_marker': ['- item\n- two\n', '* item\n* two\n', '1. item\n2. two\n', '3) item\n4) two\n', '- item\n\n- two\n'],
+    'html_or_text': ['<b>x</b>\n', '\\<b>x\\</b>\n', '`<b>x</b>`\n', '<b>x</b>\n\n<b>x</b> y\n'],
+}
+
 # one sentinel per row of the state table (systematic sweep uses these right after every fault variant)
 SENTINELS = ['setext2', 'plain', 'code', 'ref_shortcut', 'ref_undefined', 'entity_def', 'headings',
              'fence_tilde', 'html2', 'table_interrupt', 'list_tight', 'list_loose', 'custom', 'quote',
